@@ -34,6 +34,8 @@ type dmDirect struct {
 	samples                       int
 	debug                         bool
 	rejectReasons                 map[string]int
+	externals                     map[string]int
+	externalSamples               []any
 }
 
 func dmHashText(s string) uint64 {
@@ -45,7 +47,7 @@ func dmHashText(s string) uint64 {
 // RunDirect is the direct no-internal-error monitor (see main.go).
 func RunDirect(rng *lib.Rng, tier string, sum *lib.Summary) {
 	d := &dmDirect{rng: rng, sum: sum, seen: map[uint64]bool{}, perKey: map[string]int{},
-		reportedIndep: map[string]bool{}, rejectReasons: map[string]int{},
+		reportedIndep: map[string]bool{}, rejectReasons: map[string]int{}, externals: map[string]int{},
 		debug: os.Getenv("C01_DEBUG") != ""}
 	if sum.Distribution == nil {
 		sum.Distribution = map[string]int{}
@@ -57,10 +59,13 @@ func RunDirect(rng *lib.Rng, tier string, sum *lib.Summary) {
 		defer func() { os.Stdout = saved; devnull.Close() }()
 	}
 	d.runCorpus()
+	if os.Getenv("C01_CORPUS_ONLY") != "" {
+		return // development aid
+	}
 
 	nScripts, nScen, mutPer := 260, 45, 3
 	if tier == "thorough" {
-		nScripts, nScen = nScripts*40, nScen*40
+		nScripts, nScen = nScripts*25, nScen*25
 	}
 	for i := 0; i < nScripts; i++ {
 		g := dmNewGen(lib.NewRng(rng.U64()))
@@ -128,6 +133,8 @@ func RunDirect(rng *lib.Rng, tier string, sum *lib.Summary) {
 		"executions":                d.executions,
 		"failures_per_key":          d.perKey,
 		"checker_rejection_reasons": dmTopN(d.rejectReasons, 12),
+		"external_error_outcomes":   d.externals,
+		"external_error_samples":    d.externalSamples,
 	}
 }
 
@@ -308,6 +315,9 @@ func (d *dmDirect) process(sc *dmScenario) bool {
 			if cls == "user" {
 				d.sum.Count("direct:usererror:" + r.V.GoType)
 			}
+			if d.debug && x.vm && i < len(resI) && (cls == "checker") != (resI[i].V.Class == "checker") {
+				fmt.Fprintf(os.Stderr, "---- ENGINES DISAGREE ON REJECTION step %d: interpreter=%q vm=%q\n%s\n%s\n", i, resI[i].V.Class, cls, sc.Steps[i].Code, dmTrimTo(r.Err, 1500))
+			}
 			if d.debug && (cls == "external" || cls == "internal" || cls == "crash" || (cls == "user" && os.Getenv("C01_DEBUG") == "2")) {
 				fmt.Fprintf(os.Stderr, "---- OUTCOME %s engine=%s step %d detail=%s\n%s\n%s\n", cls, dmEngineName(x.vm), i, r.V.Detail(), sc.Steps[i].Code, dmTrimTo(r.Err, 1200))
 			}
@@ -317,6 +327,19 @@ func (d *dmDirect) process(sc *dmScenario) bool {
 		d.samples++
 		d.sum.Sample(map[string]any{"leg": "direct", "steps": sc.Steps, "mutation": sc.Mutant,
 			"interpreter": dmLastClass(resI), "vm": dmLastClass(resV)})
+	}
+	// host-class ("external") errors are not failures of the property, but none is expected: the
+	// harness host never fails. They are reported as observations (shrunk) in extra.direct.
+	for _, x := range []struct {
+		res []dmStepResult
+		vm  bool
+	}{{resI, false}, {resV, true}} {
+		for i, r := range x.res {
+			if r.V.Class == "external" {
+				d.observeExternal(sc, x.vm, r, i)
+				break
+			}
+		}
 	}
 	if fI >= 0 {
 		d.fail(sc, false, resI, fI)
@@ -354,6 +377,23 @@ func dmRejectionReason(errText string) string {
 		}
 	}
 	return "?"
+}
+
+// observeExternal records (at most 3 per message, shrunk) programs ending in an ExternalError.
+func (d *dmDirect) observeExternal(sc *dmScenario, vm bool, r dmStepResult, step int) {
+	key := dmEngineName(vm) + ":" + r.V.GoType + ":" + dmNormMsg(r.V.Msg)
+	d.externals[key]++
+	if d.externals[key] > 1 || len(d.externalSamples) >= 6 {
+		return
+	}
+	shrunk, runs := dmShrinkScenario(sc, vm, r.V, step, 200)
+	d.executions += runs
+	var prog any = shrunk.Steps
+	if len(shrunk.Steps) == 1 {
+		prog = shrunk.Steps[0].Code
+	}
+	d.externalSamples = append(d.externalSamples, map[string]any{"what": key, "engine": dmEngineName(vm),
+		"error": dmTrimTo(r.Err, 400), "program": prog})
 }
 
 // fail shrinks a failing program and reports it under its narrow key.
